@@ -11,7 +11,8 @@ Record cvec := mkv { buf : list Z; len : nat; cap : nat; acap : nat }.
 
 Inductive vop :=
 | VPush (x : Z) | VPop | VInsert (i : nat) (x : Z) | VRemove (i : nat) | VReserve (n : nat)
-| VClone | VWrite (i : nat) (x : Z) | VFromVec (spare : nat) (xs : list Z) | VRead.
+| VClone | VWrite (i : nat) (x : Z) | VFromVec (spare : nat) (xs : list Z) | VRead
+| VCloneP.    (* clone of a vector of elements whose Clone PANICS for poisoned values (element type PC of the harness) *)
 
 (* output of one op: (result row, values whose destructor ran, in order) *)
 Definition vout : Type := (list Z * list Z)%type.
@@ -103,6 +104,12 @@ Definition drop_vec (v : cvec) : outcome (list Z) :=
   | None => UB
   end.
 
+(* an element whose Clone panics: values ending in ..13 *)
+Definition poison (x : Z) : bool := (x mod 1000 =? 13)%Z.
+(* the clones made before the first poisoned element: they are destroyed by the unwinding *)
+Fixpoint cloned_before (l : list Z) : list Z :=
+  match l with [] => [] | x :: r => if poison x then [] else x :: cloned_before r end.
+
 (* Clone: Self::from(Vec::from(&**self)) – exact capacity *)
 Definition clone_vec (v : cvec) : outcome cvec :=
   match region (buf v) 0 (len v) with
@@ -146,6 +153,18 @@ Definition step (v : cvec) (o : vop) : outcome (cvec * vout) :=
                 | Ok ds => Ok (c, ([5%Z], ds))
                 | _ => UB end
       | _ => UB end
+  | VCloneP => (* the same, but Vec::from(&[T]) clones element by element and the poisoned one panics: the source is untouched, the partial
+                  copy is dropped with the clones made so far *)
+      match region (buf v) 0 (len v) with
+      | Some live =>
+          if existsb poison live then Panic (v, ([5;9]%Z, cloned_before live))
+          else match clone_vec v with
+               | Ok c => match drop_vec v with
+                         | Ok ds => Ok (c, ([5%Z], ds))
+                         | _ => UB end
+               | _ => UB end
+      | None => UB
+      end
   | VWrite i x => match write v i x with
                   | Ok (v', old) => Ok (v', ([6;0]%Z, [old]))
                   | Panic (v', _) => Panic (v', ([6;9]%Z, [x]))
@@ -191,6 +210,7 @@ Definition spec_step (l : list Z) (o : vop) : list Z * vout * bool :=
                  end
   | VReserve _ => (l, ([4%Z], []), false)
   | VClone => (l, ([5%Z], l), false)
+  | VCloneP => if existsb poison l then (l, ([5;9]%Z, cloned_before l), true) else (l, ([5%Z], l), false)
   | VWrite i x => match nth_error l i with
                   | Some old => (firstn i l ++ x :: skipn (S i) l, ([6;0]%Z, [old]), false)
                   | None => (l, ([6;9]%Z, [x]), true)
@@ -233,8 +253,10 @@ Fixpoint decode_all {A} (d : list Z -> option A) (rows : list (list Z)) : option
    len+add <= result matters to any theorem or comparison *)
 Definition std_grow (l a c : nat) : nat := Nat.max (Nat.max (2 * c) (l + a)) 4.
 
+(* element type 6 of the harness (header field 1) is the one whose Clone panics: its clone operation is VCloneP *)
 Definition run_cvec (params : list Z) (rows : list (list Z)) : list (list Z) :=
   match decode_all decode_vop rows with
-  | Some ops => run_from std_grow (from_vec 0 []) ops
+  | Some ops => let ops := if (nth 0 params 0 =? 6)%Z then map (fun o => match o with VClone => VCloneP | _ => o end) ops else ops in
+                run_from std_grow (from_vec 0 []) ops
   | None => [[-2]%Z]
   end.
